@@ -2,11 +2,14 @@ package props
 
 import (
 	"bytes"
+	"crypto/rand"
 	"encoding/hex"
+	"errors"
 	"fmt"
 	"os"
 	"runtime"
 	"testing"
+	"time"
 
 	"github.com/bytemare/secp256k1"
 	"github.com/bytemare/secp256k1/verifharness/gen"
@@ -278,6 +281,11 @@ type h2cStep struct {
 	// MsgLen > 0: the message is MsgLen bytes of a fixed pattern instead of Msg (messages of megabytes: what a call with a
 	// very large input leaves behind - grown scratch buffers, pool entries dropped or kept - must not reach the next call).
 	MsgLen int `json:"msg_len,omitempty"`
+	Rep    int `json:"rep,omitempty"` // steps with an empty DST (the documented panic): how many times the call is made
+	// SleepMs: time passes before this step (fixed cases only: expiring caches, periodic background work)
+	SleepMs int `json:"sleep_ms,omitempty"`
+	// FailRandom: before this step Scalar.Random is called while the entropy source fails (the documented panic, recovered)
+	FailRandom bool `json:"fail_random,omitempty"`
 }
 
 func (st h2cStep) message() []byte {
@@ -301,6 +309,13 @@ func hugeSequences(fns []string) []caseH2CSeq {
 		out = append(out, caseH2CSeq{Steps: []h2cStep{{Fn: fn, Dst: d16, MsgLen: n}, {Fn: fn, Msg: "616263", Dst: d16}, {Fn: fn2, Msg: "", Dst: d300},
 			{Fn: fn2, Msg: hex.EncodeToString(bytes.Repeat([]byte{'m'}, 100)), Dst: d16}, {Fn: fn, Dst: d300, MsgLen: n / 2}, {Fn: fn, Msg: "00", Dst: d16}}, GC: i%2 == 1})
 	}
+	fn := fns[0]
+	if os.Getenv("VERIF_TIER") == "thorough" {
+		out = append(out, caseH2CSeq{Steps: []h2cStep{{Fn: fn, Msg: "616263", Dst: d300}, {Fn: fn, Msg: "616263", Dst: d16}, {Fn: fn, Msg: "616264", Dst: d16, SleepMs: 125000},
+			{Fn: fn, Msg: "616263", Dst: d300}, {Fn: fn, Msg: "616263", Dst: d16}}})
+	}
+	out = append(out, caseH2CSeq{Steps: []h2cStep{{Fn: fn, Msg: "616263", Dst: d16}, {Fn: fn, Msg: "616263", Dst: d300}, {Fn: fn, Msg: "616264", Dst: d16, SleepMs: 1100},
+		{Fn: fn, Msg: "616263", Dst: d300}, {Fn: fn, Msg: "616263", Dst: d16, SleepMs: 250}}})
 	return out
 }
 
@@ -333,10 +348,23 @@ func genH2CSeq(fns []string) func(t *rapid.T) caseH2CSeq {
 					msg[rapid.IntRange(0, len(msg)-1).Draw(t, "mpos")] ^= 0x55
 				}
 			}
-			c.Steps = append(c.Steps, h2cStep{Fn: rapid.SampledFrom(fns).Draw(t, "fn"), Msg: hex.EncodeToString(msg), Dst: hex.EncodeToString(dst)})
+			if i > 0 && gen.Chance(t, "emptyDst", 1, 8) {
+				c.Steps = append(c.Steps, h2cStep{Fn: rapid.SampledFrom(fns).Draw(t, "fnr"), Msg: hex.EncodeToString(msg), Rep: rapid.SampledFrom([]int{1, 3, 70, 300}).Draw(t, "rep")})
+			}
+			c.Steps = append(c.Steps, h2cStep{Fn: rapid.SampledFrom(fns).Draw(t, "fn"), Msg: hex.EncodeToString(msg), Dst: hex.EncodeToString(dst), FailRandom: gen.Chance(t, "failRandom", 1, 8)})
 		}
 		return c
 	}
+}
+
+// failingReader writes garbage into the buffer it is given and reports an error.
+type failingReader struct{ fill byte }
+
+func (f failingReader) Read(p []byte) (int, error) {
+	for i := range p {
+		p[i] = f.fill + byte(i)
+	}
+	return 0, errors.New("scripted entropy failure")
 }
 
 func runH2CSeq(c caseH2CSeq, o *gen.Obs) error {
@@ -351,15 +379,41 @@ func runH2CSeq(c caseH2CSeq, o *gen.Obs) error {
 		o.ClassIf(st.MsgLen >= 1<<20, "huge-message")
 	}
 	dstBuf, msgBuf := make([]byte, maxD+c.Spare), make([]byte, maxM+c.Spare)
-	oversize, inplace := 0, 0
+	oversize, inplace, rejected, failedRandoms := 0, 0, 0, 0
 	prevLen := -1
 	for i, st := range c.Steps {
 		msgData, dstData := st.message(), gen.HexBytes(st.Dst)
 		if len(dstData) == 0 {
+			// the documented panic (empty DST), recovered by the caller, st.Rep times: what follows must be unaffected
+			for r := 0; r < max(1, st.Rep); r++ {
+				if _, pnc := callHash(st.Fn, msgData, dstBuf[:0]); pnc == nil {
+					return gen.Fail("sequence/empty-dst-accepted", "step %d: %s accepted an empty DST", i, st.Fn)
+				}
+			}
+			rejected++
 			continue
 		}
 		if c.GC && i > 0 {
 			runtime.GC()
+		}
+		if st.FailRandom {
+			failedRandoms++
+			func() {
+				saved := rand.Reader
+				rand.Reader = failingReader{fill: byte(0xC3 + i)}
+				defer func() {
+					rand.Reader = saved
+					_ = recover()
+				}()
+				secp256k1.NewScalar().Random()
+			}()
+		}
+		if st.SleepMs > 0 {
+			limit := 1500
+			if os.Getenv("VERIF_TIER") == "thorough" {
+				limit = 130000 // the thorough tier has one sequence with an idle period of more than two minutes
+			}
+			time.Sleep(time.Duration(min(st.SleepMs, limit)) * time.Millisecond)
 		}
 		copy(dstBuf, dstData) // the caller re-uses its buffers: same backing array, new content
 		copy(msgBuf, msgData)
@@ -391,6 +445,8 @@ func runH2CSeq(c caseH2CSeq, o *gen.Obs) error {
 	}
 	o.ClassIf(oversize >= 2, "oversize-dst-twice")
 	o.ClassIf(inplace >= 1, "same-length-overwrite")
+	o.ClassIf(rejected >= 1, "after-recovered-panics")
+	o.ClassIf(failedRandoms >= 1, "after-failed-random")
 	o.NonTrivialIf(inplace >= 1)
 	return nil
 }
@@ -401,7 +457,7 @@ var c08seq = gen.Register(&gen.Check[caseH2CSeq]{
 	Gen:      genH2CSeq([]string{"ro", "nu"}),
 	Run:      runH2CSeq,
 	Fixed:    func() []caseH2CSeq { return hugeSequences([]string{"ro", "nu"}) },
-	Required: []string{"oversize-dst-twice", "same-length-overwrite", "huge-message"},
+	Required: []string{"oversize-dst-twice", "same-length-overwrite", "huge-message", "after-recovered-panics", "after-failed-random"},
 })
 
 func TestC08Sequence(t *testing.T) { c08seq.Execute(t) }
@@ -412,7 +468,7 @@ var c09seq = gen.Register(&gen.Check[caseH2CSeq]{
 	Gen:      genH2CSeq([]string{"scalar"}),
 	Run:      runH2CSeq,
 	Fixed:    func() []caseH2CSeq { return hugeSequences([]string{"scalar"}) },
-	Required: []string{"oversize-dst-twice", "same-length-overwrite", "huge-message"},
+	Required: []string{"oversize-dst-twice", "same-length-overwrite", "huge-message", "after-recovered-panics", "after-failed-random"},
 })
 
 func TestC09Sequence(t *testing.T) { c09seq.Execute(t) }
